@@ -11,12 +11,13 @@ ENGINES = [
     {"name": "towersim (E1)", "path": "harness/src/{e1,model,world,tower,chain,node,snap}.rs", "serves_properties": ["C01", "C02", "C03", "C04", "C06", "C07", "C08", "C09", "C11", "C12"],
      "kind_free_text": "the real tower components in one process against a simulated chain and node; a sequential reference model (TowerModel) and "
                        "per-property monitors compare replies, sqlite rows, private-API answers and the node RPC log after every step"},
-    {"name": "teosd-e2e (E3)", "path": "harness/src/{remote,e3,e3c,e3o,e3cfg}.rs (+ Mode::Real in e2.rs)", "serves_properties": ["C01", "C02", "C03", "C04", "C06", "C07", "C08", "C09", "C10", "C11", "C12", "C20"],
+    {"name": "teosd-e2e (E3)", "path": "harness/src/{remote,e3,e3c,e3o,e3cfg,e3s,e3p}.rs (+ Mode::Real in e2.rs)", "serves_properties": ["C01", "C02", "C03", "C04", "C06", "C07", "C08", "C09", "C10", "C11", "C12", "C13", "C16", "C20"],
      "kind_free_text": "the real teosd binary (verif build) started by its own main.rs against a fake bitcoind speaking JSON-RPC over TCP (backed by the same SimChain/SimNode, "
                        "polls held until the driver grants them); user requests over the HTTP API / internal gRPC, operator requests over the mTLS gRPC API, sqlite read by a second "
                        "connection; E1's generator + TowerModel + monitors run unchanged on it (e3); real-process crash enumeration by abort-at-hook-point and SIGKILL-at-bitcoind-request "
                        "(e3c); real-time outages by dropped connections (e3o); what the process does with a configuration file + command line (e3cfg); unscheduled concurrent "
-                       "executions of the C10/C11 scenarios (e2 real mode); a few histories under valgrind memcheck"},
+                       "executions of the C10/C11 scenarios (e2 real mode); a soak with structural invariants at quiescent points (e3s); the real client binary against the real tower (e3p); "
+                       "a few histories under valgrind memcheck"},
     {"name": "pure (E6)", "path": "harness/src/pure_*.rs", "serves_properties": ["C17", "C18", "C19", "C20", "C07"],
      "kind_free_text": "direct calls into the real library code with an independent reference oracle, seeded generators, per-case monitors"},
 ]
